@@ -21,7 +21,13 @@ sorted: the order of every list is networkx's, which is defined by node / edge i
 `<nodes>` is `list(G.nodes)` (so a node that only occurs in an edge is there too, as networkx adds it), `<edges>` the
 edges as given (the adjacency order of every node is the order of its edges in that list).
 
-Model side: lean/CG/Driver/HNxTopo.lean.  What is proved about the model: lean/CG/Proofs/C10NxTopo.lean.
+Model side: lean/CG/Driver/HNxTopo.lean.  What is proved about the model (lean/CG/Proofs/C10NxTopo.lean), for a node list
+without repetition and edges within it: `isdag` answers 1 exactly on acyclic graphs (it is `CG.DSepDec.acyclicB`); `sort`,
+`gens` (concatenated) and `lex` return a valid topological order (`CG.Topo.isTopoOrder`) on an acyclic graph and
+`err NetworkXUnfeasible` exactly on a cyclic one; `lex` returns the very list `CG.Topo.kahnByLag` (= `topo kahn`)
+computes, with non-decreasing keys when no edge goes from a larger key to a smaller one; `all` returns every linear
+extension exactly once (a rearrangement of `CG.Topo.allTopo` = `topo all`), `err NetworkXUnfeasible` on a cyclic graph;
+none of the other `err ...` replies of the handler can occur.
 
     self_test(n_max=5)   every labelled DAG with at most n_max nodes in shuffled node / edge orders (plus cyclic graphs,
                          self loops, isolated nodes, repeated edges, duplicate keys, bigger random DAGs) through a
